@@ -52,6 +52,61 @@ def build(packages, profile="dev", features=None):
         raise MachineryError("harness build failed (the repository tree may not compile when mounted):\n" + r.stderr[-4000:])
 
 
+E1_SEAMS = ["seam_arm64", "seam_arm32", "seam_macsim", "seam_macenc", "priv_amd64", "priv_arm64", "priv_macsim"]
+SEAM_LOSS = {
+    "seam_arm64": "the AArch64 back-end is not reachable on this tree (its private entry points do not compile when mounted): AArch64 installations are not explored",
+    "seam_arm32": "the 32-bit ARM back-end is not reachable on this tree: ARM/Thumb installations are not explored",
+    "seam_macsim": "the macOS variant of the AArch64 entry patch does not compile when mounted: not explored",
+    "seam_macenc": "the macOS entry encoder is not reachable as a function on this tree: its page-difference domain is not explored",
+    "priv_amd64": "module-private x86-64 encoder entry points are not reachable: entry displacements beyond the allocator's window (Windows-style long entry) are not explored",
+    "priv_arm64": "module-private AArch64 entry encoder is not reachable: displacements beyond the allocator's window are not explored",
+    "priv_macsim": "module-private macOS entry encoder is not reachable: displacements beyond the allocator's window are not explored",
+}
+
+
+def build_e1(profile="dev"):
+    """Build e1 with every seam (cargo feature naming private items of the repository) that compiles
+    against the mounted tree.  Returns the list of human-readable losses (empty when all seams hold).
+    The decision is cached per mounted tree."""
+    mount_txt = open(os.path.join(WORK, "mount.json")).read() if os.path.exists(os.path.join(WORK, "mount.json")) else ""
+    key = hashlib.sha256((mount_txt + profile).encode()).hexdigest()[:16]
+    cache_p = os.path.join(WORK, "seams.json")
+    cache = {}
+    try:
+        cache = json.load(open(cache_p))
+    except Exception:
+        pass
+    feats = cache.get(key)
+    if feats is None:
+        try:
+            build(["e1"], features=["e1/" + f for f in E1_SEAMS], profile=profile)
+            feats = list(E1_SEAMS)
+        except MachineryError:
+            feats = []
+            for f in E1_SEAMS:
+                try:
+                    build(["vcore"], features=["vcore/" + f], profile=profile)
+                    feats.append(f)
+                except MachineryError:
+                    pass
+            # a priv_* seam needs its back-end seam
+            feats = [f for f in feats if not (f == "priv_arm64" and "seam_arm64" not in feats) and not (f == "priv_macsim" and "seam_macsim" not in feats)]
+        cache = {key: feats}
+        with open(cache_p, "w") as fh:
+            json.dump(cache, fh)
+    while True:
+        try:
+            build(["e1"], features=["e1/" + f for f in feats] or None, profile=profile)
+            break
+        except MachineryError:
+            if not feats:
+                raise
+            feats = feats[:-1] if len(feats) > 1 else []
+            with open(cache_p, "w") as fh:
+                json.dump({key: feats}, fh)
+    return [SEAM_LOSS[f] for f in E1_SEAMS if f not in feats]
+
+
 def bin_path(name, profile="dev"):
     return os.path.join(TARGET, "debug" if profile == "dev" else profile, name)
 
